@@ -233,6 +233,8 @@ def predicate(kind, args, impl):
             else:
                 return True, ""
         return True, ""
+    if kind == "apicheck":
+        return impl == "1", "the API contract %s holds" % args[0]
     if kind == "parseint":
         v = go_parse_int(bytes.fromhex(args[0][1:]))
         want = "err" if v is None else str(v)
@@ -240,6 +242,9 @@ def predicate(kind, args, impl):
     return True, ""
 
 # ------------------------------------------------------------ correspondence
+
+ALL_KINDS = "validate,ctors,delay,spec,parseint"
+KIND_GROUP = {"newfixed": "ctors", "newexpo": "ctors", "newjitter": "ctors", "newlimit": "ctors", "newrandom": "ctors", "bseq": "spec"}
 
 def corr(kinds, prop_id):
     def run(tier, seed):
@@ -250,16 +255,38 @@ def corr(kinds, prop_id):
         if not ok:
             res["build_error"] = "model runner: " + out
             return res
-        ok, gobin, out = C.go_build("pure")
+        ok, gobin, out = C.go_build("pure", cover="go.linecorp.com/garr/retry,go.linecorp.com/garr/circuit-breaker")
         if not ok:
             res["build_error"] = "go build of the harness against /repo failed:\n" + out
             return res
         d = os.path.join(C.BUILD, "run", prop_id)
         os.makedirs(d, exist_ok=True)
-        rc, out = C.sh([gobin, "-seed", str(seed), "-n", str(n), "-out", d, "-kinds", kinds], timeout=3000)
+        import shutil
+        covdir = os.path.join(d, "cov")
+        shutil.rmtree(covdir, ignore_errors=True)
+        os.makedirs(covdir)
+        cenv = dict(os.environ, GOCOVERDIR=covdir)
+        # the coverage corpus of the pure packages: every kind of case with the fixed seed 0 (boundary palettes and a few
+        # hundred random cases each), judged like the property's own cases below; then the property's own kinds
+        dc = os.path.join(d, "corpus")
+        os.makedirs(dc, exist_ok=True)
+        rc, out = C.sh([gobin, "-seed", "0", "-n", "300", "-out", dc, "-kinds", ALL_KINDS], timeout=3000, env=cenv)
+        if rc == 0:
+            rc, out = C.sh([gobin, "-seed", str(seed), "-n", str(n), "-out", d, "-kinds", kinds], timeout=3000, env=cenv)
         if rc != 0:
             res["build_error"] = "harness run failed:\n" + out
             return res
+        # corpus cases other than the property's own kinds join the comparison with the model (mismatches only: their
+        # verdicts belong to other properties)
+        own = set(kinds.split(","))
+        with open(os.path.join(d, "cases.tsv"), "a") as fc, open(os.path.join(d, "impl.tsv"), "a") as fi:
+            cimpl = dict(l.rstrip("\n").split("\t", 1) for l in open(os.path.join(dc, "impl.tsv")))
+            for l in open(os.path.join(dc, "cases.tsv")):
+                f = l.rstrip("\n").split("\t")
+                if KIND_GROUP.get(f[1], f[1]) in own:
+                    continue
+                fc.write("\t".join(["c" + f[0]] + f[1:]) + "\n")
+                fi.write("c%s\t%s\n" % (f[0], cimpl.get(f[0], "")))
         rc, model_out = C.sh("%s < cases.tsv > model.tsv" % exe, cwd=d, timeout=3000)
         if rc != 0:
             res["build_error"] = "model runner failed:\n" + model_out
@@ -272,21 +299,32 @@ def corr(kinds, prop_id):
         for c in cases:
             cid, kind, args = c[0], c[1], " ".join(c[2:]).split()
             iv, mv = impl.get(cid), model.get(cid)
+            if kind == "apicheck":
+                mv = "1"          # judged by the documented contract alone (no model counterpart)
             key = (kind, tuple(args))
             seen.add(key)
             if iv not in ("0", "none", "err"):
                 nontriv.add(key)
-            okp, why = predicate(kind, args, iv)
+            okp, why = (True, "") if cid.startswith("c") else predicate(kind, args, iv)
             if iv != mv:
                 mism.append({"kind": kind, "args": " ".join(c[2:]), "impl": iv, "model": mv})
             if not okp:
                 viol.append({"kind": kind, "args": " ".join(c[2:]), "impl": iv, "model": mv, "property_says": why})
-            if len(samples) < 8 and int(cid) % max(1, len(cases) // 8) == 0:
+            if len(samples) < 8 and not cid.startswith("c") and int(cid) % max(1, len(cases) // 8) == 0:
                 samples.append({"kind": kind, "args": " ".join(c[2:]), "impl": iv, "model": mv})
         res.update(evaluations=len(cases), distinct_nontrivial=len(nontriv), mismatches=mism, violations=viol,
                    samples=samples, traces_validated_against_impl=len(cases),
                    stats=json.load(open(os.path.join(d, "stats.json"))))
         res["stats"]["distinct_cases"] = len(seen)
+        from . import cover
+        scope = {f for f in cover.anchors(prop_id) if f.startswith("retry/") or f == "circuit-breaker/circuitBreakerConfig.go"}
+        unex, cstats, cerr = cover.unexercised(covdir, C.REPO, scope, cwd=os.path.join(C.ROOT, "harness"))
+        if cerr:
+            res["build_error"] = cerr
+        for u in unex:
+            mism.append({"kind": "code not executed by any model-validated case (the correspondence does not cover it)",
+                         "args": "%s: %s (lines %s)" % (u["file"], u["func"], u["lines"]), "impl": u["text"], "model": ""})
+        res["stats"]["impl_block_coverage"] = cstats
         return res
     return run
 
